@@ -396,3 +396,154 @@ Proof.
     + rewrite A2 in Hs. inversion Hs; subst sl. simpl in Hw. left. rewrite N2Nat.id. apply A9. assumption.
     + left. rewrite A3 in Hs by assumption. eapply (g_hist HG); eassumption.
 Qed.
+
+(* the invariant reads only the structural fields of the state *)
+Lemma G_same_core {X} s s' hs al rem :
+  slots s' = slots s -> locs s' = locs s -> next_slot s' = next_slot s -> empty_slots s' = empty_slots s -> archs s' = archs s ->
+  GE X s hs al rem -> GE X s' hs al rem.
+Proof.
+  intros E1 E2 E3 E4 E5 HG. destruct HG. destruct s, s'. simpl in *. subst. constructor; assumption.
+Qed.
+
+(* without pending commands every issued id has a slot *)
+Lemma ids_in_range {X} s hs al k : GE X s hs al [] -> k < length hs -> N.to_nat (fst (hnd hs k)) < length (slots s).
+Proof.
+  intros HG Hk. destruct (alive_dec al k) as [Ha|Hna].
+  - unfold alive in Ha. apply in_map_iff in Ha. destruct Ha as ((k0, key) & E & Hin). simpl in E. subst k0.
+    destruct (g_alive HG k key Hin) as (_ & _ & Hs & _). apply nth_error_Some. congruence.
+  - assert (Hnp : ~ pend [] k) by (intros (key & [])).
+    destruct (g_dead HG k Hk Hna Hnp) as (sl & Hs & _). apply nth_error_Some. congruence.
+Qed.
+
+(* a new archetype without members *)
+Lemma G_new_arch s hs al rem key :
+  G s hs al rem -> (forall a, In a (archs s) -> a_key a <> key) ->
+  G (set_archs s (archs s ++ [{| a_key := key; a_ents := [] |}])) hs al rem.
+Proof.
+  intros HG Hnew. destruct HG. constructor; try assumption.
+  - intros k key' Hin. destruct (g_alive0 k key' Hin) as (A & B & C & ai & idx & a & D & E & F & G0). split; [assumption|].
+    split; [assumption|]. split; [assumption|]. exists ai, idx, a. simpl. rewrite nth_error_app1 by (apply nth_error_Some; congruence). auto.
+  - simpl. rewrite map_app. simpl. apply NoDup_app_intro_single; [assumption|]. intros Hin. apply in_map_iff in Hin.
+    destruct Hin as (a & E & Ha). apply (Hnew a Ha). assumption.
+  - intros ai a idx h Hx Ha Hh. simpl in Ha. destruct (Nat.lt_ge_cases ai (length (archs s))) as [Hlt|Hge].
+    + rewrite nth_error_app1 in Ha by assumption. apply (g_arch_members0 ai a idx h Hx Ha Hh).
+    + rewrite nth_error_app2 in Ha by assumption. destruct (ai - length (archs s)) as [|n]; simpl in Ha.
+      * inversion Ha; subst a. simpl in Hh. destruct idx; discriminate.
+      * destruct n; discriminate.
+Qed.
+
+(* ------------------------------------------------------------------------------------------ *)
+(* clearArchetype releases the ids of the members one by one while the entity list still holds them:
+   positions below j of archetype ai are exempt from the membership clause *)
+Definition exj (ai j : nat) : nat -> nat -> Prop := fun ai' idx => ai' = ai /\ idx < j.
+
+Lemma G_release_member s s' hs al rem ai a j i v :
+  GE (exj ai j) s hs al rem -> nth_error (archs s) ai = Some a -> nth_error (a_ents a) j = Some (i, v) ->
+  (v + 1 < NULL_VER)%N ->
+  slots s' = upd (slots s) (N.to_nat i)
+                 {| s_id := match empty_slots s with O => (i + 1)%N | S _ => next_slot s end; s_ver := (v + 1)%N |} ->
+  next_slot s' = i -> empty_slots s' = S (empty_slots s) -> archs s' = archs s ->
+  length (locs s') = length (locs s) ->
+  (forall x, x <> N.to_nat i -> nth_error (locs s') x = nth_error (locs s) x) ->
+  exists k, hnd hs k = (i, v) /\ k < length hs /\ GE (exj ai (S j)) s' hs (kill al k) rem.
+Proof.
+  intros HG Harch Hent Hnw Eslots Enext Eempty Earchs Elen Hother.
+  assert (Hnx : ~ exj ai j ai j) by (intros (_ & Hlt); lia).
+  destruct (g_arch_members HG ai a j (i, v) Hnx Harch Hent) as (k & Hk & Hklt & Eh & Hloc). simpl in Hloc.
+  exists k. split; [assumption|]. split; [assumption|].
+  destruct (g_alive HG k (a_key a) Hk) as (_ & HnW & Hslot & _). rewrite Eh in HnW, Hslot. simpl in HnW, Hslot.
+  assert (Hi : N.to_nat i < length (slots s)) by (apply nth_error_Some; congruence).
+  assert (EW : W s' = i :: W s).
+  { unfold W at 1. rewrite Eslots, Enext, Eempty. apply walk_push; auto. }
+  assert (Hid : forall k' key', In (k', key') al -> fst (hnd hs k') = i -> k' = k).
+  { intros k' key' Hin E. eapply (live_ids_distinct s hs al rem); eauto. rewrite Eh. exact E. }
+  assert (Hnat : forall x, x <> i -> N.to_nat x <> N.to_nat i) by (intros x Hx E; apply Hx; apply N2Nat.inj; assumption).
+  constructor.
+  - rewrite Elen, Eslots, upd_length. apply (g_len HG).
+  - rewrite EW. constructor; [assumption|apply (g_free_nodup HG)].
+  - intros x Hx. rewrite EW in Hx. rewrite Eslots, upd_length. destruct Hx as [<-|Hx]; [assumption|apply (g_free_range HG); assumption].
+  - intros x sl Hx Hs. rewrite EW in Hx. rewrite Eslots in Hs. destruct (N.eq_dec x i) as [->|Hne].
+    + rewrite nth_error_upd_same in Hs by assumption. inversion Hs; subst sl. simpl. assumption.
+    + destruct Hx as [E|Hx]; [congruence|]. rewrite nth_error_upd_other in Hs by (intros E; apply Hne; apply N2Nat.inj; auto).
+      eapply (g_free_ver HG); eassumption.
+  - apply (g_hs_ver HG).
+  - apply (g_hs_id HG).
+  - apply (g_hs_nodup HG).
+  - apply kill_nodup. apply (g_al_nodup HG).
+  - (* alive *)
+    intros k' key' Hin. apply kill_in in Hin. destruct Hin as (Hin & Hne).
+    destruct (g_alive HG k' key' Hin) as (Hk'lt & HnW' & Hslot' & ai' & idx' & a' & Hloc' & Harch' & Hkey' & Hent').
+    split; [assumption|].
+    assert (Hne_i : fst (hnd hs k') <> i) by (intros E; apply Hne; eapply Hid; eauto).
+    split; [rewrite EW; intros [E|E]; [congruence|contradiction]|].
+    split; [rewrite Eslots, nth_error_upd_other by (intros E; apply Hne_i; apply N2Nat.inj; auto); assumption|].
+    exists ai', idx', a'. rewrite Earchs. rewrite Hother by (apply Hnat; assumption). auto.
+  - (* dead *)
+    intros k' Hk'lt Hna Hnp. unfold dead_at. destruct (Nat.eq_dec k' k) as [->|Hne].
+    + rewrite Eh. exists {| s_id := match empty_slots s with O => (i + 1)%N | S _ => next_slot s end; s_ver := (v + 1)%N |}. simpl.
+      rewrite Eslots, nth_error_upd_same by assumption. split; [reflexivity|lia].
+    + assert (Hna' : ~ alive al k') by (intros Ha; apply Hna; apply kill_alive; auto).
+      destruct (g_dead HG k' Hk'lt Hna' Hnp) as (sl & Hs & Hlt). unfold dead_at in *. rewrite Eslots.
+      destruct (Nat.eq_dec (N.to_nat i) (N.to_nat (fst (hnd hs k')))) as [E|E].
+      * rewrite <- E in Hs |- *. rewrite Hslot in Hs. inversion Hs; subst sl. simpl in Hlt.
+        eexists. rewrite nth_error_upd_same by assumption. split; [reflexivity|]. simpl. lia.
+      * exists sl. rewrite nth_error_upd_other by assumption. auto.
+  - (* pending *)
+    intros k' Hp. destruct (g_pend HG k' Hp) as (A & B & C & D). split; [assumption|]. split; [intros Ha; apply kill_alive in Ha; tauto|]. split; [assumption|].
+    unfold pend_at, gap in *. rewrite Eslots, upd_length, EW. destruct D as [D|(D1 & D2)]; [left; assumption|right].
+    assert (Hne : N.to_nat (fst (hnd hs k')) <> N.to_nat i).
+    { intros E. rewrite E in D1. rewrite Hslot in D1. inversion D1 as [[E1 E2]]. unfold NULL_VER in *. lia. }
+    split; [rewrite nth_error_upd_other by congruence; assumption|].
+    intros [E|E]; [apply Hne; rewrite E, Nat2N.id; reflexivity|contradiction].
+  - (* every slot *)
+    intros x Hx. rewrite Eslots, upd_length in Hx. unfold gap in *. rewrite EW.
+    destruct (Nat.eq_dec x (N.to_nat i)) as [->|Hne]; [left; left; rewrite N2Nat.id; reflexivity|].
+    destruct (g_slots HG x Hx) as [H|[(k' & key' & Hin & E)|(H1 & H2)]].
+    + left. right. assumption.
+    + right. left. exists k', key'. split; [|assumption]. apply kill_in. split; [assumption|]. intros ->. rewrite Eh in E. simpl in E. apply Hne. rewrite E, Nat2N.id. reflexivity.
+    + right. right. split; [rewrite Eslots, nth_error_upd_other by congruence; assumption|].
+      intros [E|E]; [apply Hne; rewrite E, Nat2N.id; reflexivity|contradiction].
+  - rewrite Earchs. apply (g_arch_keys HG).
+  - (* members: position j of ai has just become exempt *)
+    intros ai' a' idx' h' Hnx' Ha' Hh'. rewrite Earchs in Ha'.
+    assert (Hnx0 : ~ exj ai j ai' idx') by (intros (E1 & E2); apply Hnx'; split; [assumption|lia]).
+    destruct (g_arch_members HG ai' a' idx' h' Hnx0 Ha' Hh') as (k' & A & B & C & D).
+    assert (Hnk : k' <> k).
+    { intros ->. rewrite Eh in C. subst h'. simpl in D. rewrite Hloc in D. inversion D; subst. apply Hnx'. split; [reflexivity|lia]. }
+    exists k'. split; [apply kill_in; auto|]. split; [assumption|]. split; [assumption|].
+    rewrite Hother; [assumption|]. apply Hnat. rewrite <- C. intros E. apply Hnk. eapply Hid; eauto.
+  - (* history of versions *)
+    intros x sl w Hs Hnn Hw. rewrite Eslots in Hs. destruct (Nat.eq_dec (N.to_nat i) x) as [<-|Hne].
+    + rewrite nth_error_upd_same in Hs by assumption. inversion Hs; subst sl. simpl in Hw. rewrite N2Nat.id.
+      destruct (N.eq_dec w v) as [->|Hwv].
+      * rewrite <- Eh. apply nth_In_hnd. assumption.
+      * rewrite <- (N2Nat.id i). apply (g_hist HG (N.to_nat i) _ w Hslot); [|simpl; lia].
+        intros E. inversion E as [[E1 E2]]. pose proof (g_hs_ver HG _ (nth_In_hnd hs k Hklt)) as Hb. rewrite Eh in Hb. simpl in Hb. unfold NULL_VER in *. lia.
+    + rewrite nth_error_upd_other in Hs by assumption. eapply (g_hist HG); eassumption.
+Qed.
+
+(* no alive entity is located below position j of archetype ai *)
+Definition nolive (s : st) (hs : list handle) (al : list (nat * N)) (ai j : nat) : Prop :=
+  forall k key idx, In (k, key) al ->
+    nth_error (locs s) (N.to_nat (fst (hnd hs k))) = Some {| l_arch := Some ai; l_idx := idx |} -> j <= idx.
+
+(* exempt positions of an archetype whose entity list is emptied disappear *)
+Lemma G_clear_list s hs al rem ai a :
+  GE (exj ai (length (a_ents a))) s hs al rem -> nolive s hs al ai (length (a_ents a)) -> nth_error (archs s) ai = Some a ->
+  G (set_archs s (upd (archs s) ai {| a_key := a_key a; a_ents := [] |})) hs al rem.
+Proof.
+  intros HG Hnl Harch. assert (Hai : ai < length (archs s)) by (apply nth_error_Some; congruence).
+  destruct HG. constructor; try assumption.
+  - intros k key Hin. destruct (g_alive0 k key Hin) as (A & B & C & ai' & idx & a' & D & E & F & G0). split; [assumption|].
+    split; [assumption|]. split; [assumption|]. exists ai', idx, a'. simpl.
+    destruct (Nat.eq_dec ai' ai) as [->|Hne]; [|rewrite nth_error_upd_other by congruence; auto].
+    exfalso. rewrite Harch in E. inversion E; subst a'.
+    assert (Hidx : idx < length (a_ents a)) by (apply nth_error_Some; congruence).
+    pose proof (Hnl k key idx Hin D). lia.
+  - simpl. rewrite map_key_upd by assumption. assumption.
+  - intros ai' a' idx h _ Ha Hh. simpl in Ha. destruct (Nat.eq_dec ai ai') as [<-|Hne].
+    + rewrite nth_error_upd_same in Ha by assumption. inversion Ha; subst a'. simpl in Hh. destruct idx; discriminate.
+    + rewrite nth_error_upd_other in Ha by assumption.
+      assert (Hnx : ~ exj ai (length (a_ents a)) ai' idx) by (intros (E1 & _); congruence).
+      apply (g_arch_members0 ai' a' idx h Hnx Ha Hh).
+Qed.
